@@ -482,3 +482,130 @@ func runC19Bounds(c *Ctx) {
 	runFreshFileSet(c, "C19-BOUNDS") // premise of the area-offset axiom
 	c.Extra["every_tag_token_contains_colon"] = colonOK
 }
+
+// runC19Dispatch: rule C19-DISPATCH. The CLI's plumbing in front of the per-file handler: the parser
+// and the writer of package file are called from the per-file handler only (so every file passes the
+// '.go' suffix test and the error isolation), and each of the flags -f, -d, -p is handed, unmodified,
+// to the handler of its own kind: -f to the per-file handler (no glob expansion of a literal path),
+// -p to the function that expands it with filepath.Glob, -d to the function that lists the directory.
+func runC19Dispatch(c *Ctx, rule string) {
+	p := c.P
+	c.Rule(rule, "file.ParseFile / file.WriteFile are called only by the per-file handler; the variables bound to -f / -p / -d are written by package flag only and each is passed to the handler of its own kind (per-file / glob / directory)", 4)
+	main := p.Pkg("")
+	if main == nil {
+		c.Unk(rule, "main", "anchor", token.NoPos, "package main not loaded")
+		return
+	}
+	handle := main.Func("handleFile")
+	mainFn := main.Func("main")
+	if handle == nil || mainFn == nil {
+		c.Unk(rule, "main", "anchor", token.NoPos, "main.main / main.handleFile not found")
+		return
+	}
+	// (1) who may call
+	for _, target := range []string{"file.ParseFile", "file.WriteFile"} {
+		var bad []string
+		n := 0
+		for _, fn := range p.Funcs {
+			if fn.Pkg != main {
+				continue
+			}
+			for _, call := range callsInAny(fn, target) {
+				n++
+				host := fn
+				for host.Parent() != nil {
+					host = host.Parent()
+				}
+				if host != handle {
+					bad = append(bad, fmt.Sprintf("%s: %s is called from %s, outside the per-file handler: that file is processed without the '.go' suffix test and without the handler's error isolation (a failure may end the run)", p.Pos(instrPos(call)), target, fnName(fn)))
+				}
+			}
+		}
+		c.Sites++
+		if n == 0 {
+			bad = append(bad, "no call found")
+		}
+		c.Check(len(bad) == 0, rule, "main", "callers:"+target, handle.Pos(), fmt.Sprintf("%d call site(s), all in %s", n, fnName(handle)), uniqJoin(bad, 2))
+	}
+	// (2) flag binding
+	classOf := func(fn *ssa.Function) string {
+		if fn == handle {
+			return "f"
+		}
+		for _, b := range fn.Blocks {
+			for _, ins := range b.Instrs {
+				if call, ok := ins.(ssa.CallInstruction); ok {
+					switch calleeName(call.Common()) {
+					case "path/filepath.Glob":
+						return "p"
+					case "os.ReadDir", "io/ioutil.ReadDir":
+						return "d"
+					}
+				}
+			}
+		}
+		return ""
+	}
+	kind := map[string]string{"f": "per-file handler", "p": "glob handler (filepath.Glob)", "d": "directory handler (os.ReadDir)"}
+	flagVar := map[ssa.Value]string{}
+	for _, b := range mainFn.Blocks {
+		for _, ins := range b.Instrs {
+			if call, ok := ins.(*ssa.Call); ok && calleeName(&call.Call) == "flag.StringVar" && len(call.Call.Args) >= 2 {
+				if name, ok := constString(call.Call.Args[1]); ok && kind[name] != "" {
+					flagVar[call.Call.Args[0]] = name
+				}
+			}
+		}
+	}
+	if len(flagVar) != 3 {
+		c.Unk(rule, "main.main", "flags", mainFn.Pos(), fmt.Sprintf("expected the three string flags -f, -p, -d bound with flag.StringVar, found %d", len(flagVar)))
+		return
+	}
+	for v, name := range flagVar {
+		var bad []string
+		passed := 0
+		for _, r := range refs(v) {
+			switch x := r.(type) {
+			case *ssa.Store:
+				if x.Addr == v {
+					bad = append(bad, fmt.Sprintf("%s: the variable bound to -%s is overwritten by the program: what the user passed is replaced or another flag's value is processed under this flag's mode", p.Pos(instrPos(r)), name))
+				}
+			case *ssa.UnOp:
+				for _, u := range refs(x) {
+					call, ok := u.(ssa.CallInstruction)
+					if !ok {
+						continue
+					}
+					sc := staticCallee(call.Common())
+					if sc == nil || sc.Pkg != main {
+						continue
+					}
+					if cl := classOf(sc); cl != "" {
+						if cl == name {
+							passed++
+						} else {
+							bad = append(bad, fmt.Sprintf("%s: the value of -%s is handed to %s, the %s, instead of the %s: e.g. a literal -f path containing '[' or '*' is expanded as a pattern and the file is not injected", p.Pos(instrPos(u)), name, sc.Name(), kind[cl], kind[name]))
+						}
+					}
+				}
+			}
+		}
+		if passed == 0 {
+			bad = append(bad, "the value of -"+name+" never reaches the "+kind[name])
+		}
+		c.Sites++
+		c.Check(len(bad) == 0, rule, "main.main", "flag:-"+name, mainFn.Pos(), "written by package flag only, handed to the "+kind[name], uniqJoin(bad, 2))
+	}
+}
+
+func callsInAny(fn *ssa.Function, name string) []ssa.Instruction {
+	var out []ssa.Instruction
+	for _, b := range fn.Blocks {
+		for _, ins := range b.Instrs {
+			if call, ok := ins.(ssa.CallInstruction); ok && calleeName(call.Common()) == name {
+				out = append(out, ins)
+			}
+		}
+	}
+	return out
+}
